@@ -181,6 +181,19 @@ func main() {
 			TailUs: vgen.Pick(fr, []int{200, 2000, 10000}), WatchdogS: 30}})
 	}
 
+	// ---- overlapping installation calls against a slow SDK ----
+	nOver := o.Count(24, 240)
+	for i := 0; i < nOver; i++ {
+		fr := r.Fork()
+		side := "trace"
+		if i%2 == 1 {
+			side = "meter"
+		}
+		add("overlap-"+side, Scenario{Kind: "overlap", Overlap: &Overlap{Seed: fr.U64(), Side: side, Handles: fr.Range(60, 200),
+			Installers: fr.Range(2, 3), Same: fr.Bool(), SlowUs: vgen.Pick(fr, []int{50, 150, 300}), Probes: 25,
+			StaggerUs: vgen.Pick(fr, []int{0, 100, 1000, 5000}), WatchdogS: 30}})
+	}
+
 	bin, _ := os.Executable()
 	outs := runAll(bin, scs, labels, false)
 
@@ -267,6 +280,8 @@ func judge(w *vgen.Writer, oc outcome) {
 		desc["steps"] = descSteps(oc.sc.Steps)
 	case "flood":
 		desc["flood"] = oc.sc.Flood
+	case "overlap":
+		desc["overlap"] = oc.sc.Overlap
 	default:
 		desc["storm"] = oc.sc.Storm
 	}
